@@ -2,6 +2,7 @@ import GtirbModel.Msg
 import GtirbModel.Proto
 import GtirbModel.DeepEq
 import GtirbModel.ProtoWF
+import GtirbModel.MsgWF
 /-! Model E, line protocol (`model msg`): the V format (an `IRV`), the M format
 (an `MIR`) and the commands `tomsg`, `frommsg`, `roundtrip`, `deepeq`,
 `canoneq`, `header`, `loadhdr`. Tokens are separated by single spaces, byte and
@@ -435,6 +436,10 @@ def driverStep (line : String) : String :=
       match fromMsg m with
       | .ok v => "ok " ++ showIRV v
       | .error e => errName e
+    | _ => "bad-op"
+  | "closed" :: ts =>
+    match readMIR ts with
+    | some (m, []) => tBool (closedMsg m)
     | _ => "bad-op"
   | "wf" :: ts =>
     match readIRV ts with
